@@ -455,7 +455,10 @@ def record_call(doc, call):
     except MachineryError:
         raise
     except Exception as ex:  # noqa  an unexpected exception of the implementation is a result, not a harness failure
+        # verdicts are total: the event becomes a 'raised' event (clause <op>.raised_unexpectedly) instead of a value of the wrong shape
         ev['res'] = 'EXC:' + type(ex).__name__
+        ev['was'] = ev['op']
+        ev['op'] = 'raised'
     for x in _returned:
         # a returned collection belongs to the caller: it is emptied after it was recorded (later calls must not notice)
         try:
